@@ -91,7 +91,7 @@ def install(lib, np_):
     k = lib.dtype_kind(dtype) if dtype is not None else None
     if isinstance(obj, VArr):
       s = st_of(cx, obj)
-      return cx.new(s.term, s.shape.dims, k or s.kind)
+      return cx.new(s.term, s.shape.dims, k or s.kind, vf=s.vf)
     if isinstance(obj, (VList, VTuple, VInt, VReal, VBool)):
       s = as_arr(cx, obj)
       return cx.new(None, s.shape.dims, k or s.kind)
@@ -99,7 +99,10 @@ def install(lib, np_):
       L = cx.p.lists[obj.lid]
       e = L['elem']
       if isinstance(e, VTuple):
-        return cx.new(None, [L['n'], z3.IntVal(len(e.items))], k or 'i')
+        return cx.new(None, [L['n'], z3.IntVal(len(e.items))], k or 'i', vf=cx.join_vf(e.items))
+      if e is None:
+        # a list that never received an element on this path (symbolic length may still be positive after a havoc)
+        return cx.new(None, [L['n']], k or 'f')
       if isinstance(e, (VInt, VReal)):
         return cx.new(None, [L['n']], k or ('i' if isinstance(e, VInt) else 'f'))
       if isinstance(e, VArr):
@@ -242,6 +245,29 @@ def install(lib, np_):
       tot = tot + s.shape.dims[0]
     return cx.new(None, [z3.simplify(tot)], promote(*[s.kind for s in items]))
 
+  def _with_joined_vf(fn):
+    def h(cx, seq, *a, **kw):
+      r = fn(cx, seq, *a, **kw)
+      items = seq.items if isinstance(seq, (VList, VTuple)) else None
+      if isinstance(seq, VListRef):
+        e = cx.p.lists[seq.lid]['elem']
+        items = [e] if e is not None else None
+      if isinstance(seq, VArr):
+        items = [seq]
+      if items and isinstance(r, VArr) and cx.st(r).kind in ('i', 'b'):
+        f = cx.join_vf([x for x in items if isinstance(x, (VArr, VInt, VTuple))] ) if all(cx.vf_of(x) is not None for x in items if not (isinstance(x, VInt) and x.conc() == 0)) else None
+        nz = [x for x in items if not (isinstance(x, VInt) and getattr(x, 'vf', None) is None)]
+        if nz and all(cx.vf_of(x) is not None for x in nz):
+          f = cx.join_vf(nz)
+          cx.p.store[r.loc] = cx.st(r).replace(vf=f)
+      return r
+    return h
+  for _d in ('numpy.vstack', 'numpy.hstack', 'numpy.concatenate', 'numpy.column_stack'):
+    from .source import resolve_external as _re
+    _o = _re(_d)
+    _nm, _fn, _ob = lib.by_obj[id(_o)]
+    lib.by_obj[id(_o)] = (_nm, _with_joined_vf(_fn), _ob)
+
   @ext('numpy.tile')
   def _tile(cx, a, reps):
     s = as_arr(cx, a)
@@ -250,12 +276,12 @@ def install(lib, np_):
     while len(dims) < len(r):
       dims = [z3.IntVal(1)] + dims
     r = [z3.IntVal(1)] * (len(dims) - len(r)) + r
-    return cx.new(None, [z3.simplify(d * k) for d, k in zip(dims, r)], s.kind)
+    return cx.new(None, [z3.simplify(d * k) for d, k in zip(dims, r)], s.kind, vf=cx.vf_of(a))
 
   @ext('numpy.repeat')
   def _repeat(cx, a, n, **kw):
     s = st_of(cx, a)
-    return cx.new(None, [s.shape.size() * n.t], s.kind)
+    return cx.new(None, [s.shape.size() * n.t], s.kind, vf=cx.vf_of(a))
 
   # ------------------------------------------------------------------------------------------------ sorting
   @ext('numpy.unique', 'ASSUMED: sorted distinct elements (rows with axis=0): between 1 and n of them for n >= 1; inverse indices in [0, #unique); counts >= 1 summing to n')
@@ -269,13 +295,13 @@ def install(lib, np_):
     if s.term is not None and s.shape.rank == 1:
       cx.p.assume(m == TH.ndistinct(s.term))
     dims = [m] + (list(s.shape.dims[1:]) if ax == 0 else [])
-    u = cx.new(TH.uniqueT(s.term) if s.term is not None else None, dims, s.kind)
+    u = cx.new(TH.uniqueT(s.term) if s.term is not None else None, dims, s.kind, vf=s.vf)
     outs = [u]
     if return_inverse is not None and kwbool(return_inverse, False):
       inv_dims = [n] if ax == 0 else list(s.shape.dims) if s.shape.rank == 1 else [s.shape.size()]
       inv = cx.new(TH.unique_inv(s.term) if s.term is not None else None, inv_dims, 'i')
       # every one of the m distinct values occurs at least once: masks `inverse == c` with 0 <= c < m are non-empty
-      cx.p.store[inv.loc] = cx.p.store[inv.loc].replace(tag=('uniq-inv', m))
+      cx.p.store[inv.loc] = cx.p.store[inv.loc].replace(tag=('uniq-inv', m), vf=m)
       outs.append(inv)
     if return_counts is not None and kwbool(return_counts, False):
       outs.append(cx.new(TH.unique_counts(s.term) if s.term is not None else None, [m], 'i'))
@@ -309,20 +335,23 @@ def install(lib, np_):
     s = st_of(cx, cond)
     n = fresh_count(cx, 'ntrue', 0, s.shape.size())
     t = TH.whereT(s.term) if (s.term is not None and s.shape.rank == 1) else None
-    first = cx.new(t, [n], 'i')
-    return VTuple([first] + [cx.new(None, [n], 'i') for _ in range(s.shape.rank - 1)])
+    first = cx.new(t, [n], 'i', vf=s.shape.dims[0])
+    return VTuple([first] + [cx.new(None, [n], 'i', vf=s.shape.dims[k]) for k in range(1, s.shape.rank)])
   ext('numpy.nonzero')(_where)
 
   @ext('numpy.take', 'ASSUMED: np.take(a, idx) (flattened a): result has the shape of idx')
   def _take(cx, a, idx, **kw):
     s = as_arr(cx, idx)
     k = as_arr(cx, a).kind if not isinstance(a, VTuple) else 'i'
-    return cx.new(None, s.shape.dims, k)
+    src = a.items[0] if isinstance(a, VTuple) and len(a.items) == 1 else a
+    if isinstance(src, VArr):
+      cx.frame_obligation(idx, st_of(cx, src).shape.size(), 'np.take')
+    return cx.new(None, s.shape.dims, k, vf=cx.vf_of(a))
 
   @ext('numpy.take_along_axis')
   def _take_along(cx, a, idx, axis):
     s = st_of(cx, idx)
-    return cx.new(None, s.shape.dims, st_of(cx, a).kind)
+    return cx.new(None, s.shape.dims, st_of(cx, a).kind, vf=cx.vf_of(a))
 
   @ext('numpy.bincount')
   def _bincount(cx, a, **kw):
@@ -535,7 +564,7 @@ def install(lib, np_):
       for d in dims:
         prod = prod * d
       cx.may_raise('ValueError', prod != total, 'cannot reshape')
-    return cx.new(TH.reshapeT(s.term) if s.term is not None else None, dims, s.kind, s.owner, base=(a.loc, s.version))
+    return cx.new(TH.reshapeT(s.term) if s.term is not None else None, dims, s.kind, s.owner, base=(a.loc, s.version), vf=s.vf)
 
   @method('any')
   def _many(cx, a, **kw):
@@ -580,10 +609,13 @@ def install(lib, np_):
       v = fresh('rand', z3.IntSort())
       cx.p.assume(v >= lo)
       cx.p.assume(v < hi)
-      return VInt(v)
+      out = VInt(v)
+      if z3.is_true(z3.simplify(lo == 0)):
+        out.vf = hi
+      return out
     dims = [size.t] if isinstance(size, VInt) else [x.t for x in size.items]
-    res = cx.new(fresh('randint', T), dims, 'i')
-    cx.p.heap.setdefault('__ranges__', {})[res.loc] = (lo, hi)
+    res = cx.new(fresh('randint', T), dims, 'i', vf=hi if z3.is_true(z3.simplify(lo == 0)) else None)
+    cx.p.store[res.loc] = cx.p.store[res.loc].replace(tag=('range', lo, hi))      # every element lies in [lo, hi)
     return res
 
   @emethod('rng', 'choice', 'ASSUMED: elements drawn from the given array (or from range(n)); replace=False -> distinct, ValueError when more are requested than available')
@@ -593,18 +625,28 @@ def install(lib, np_):
       if isinstance(a, VArr):
         s = st_of(cx, a)
         cx.may_raise('ValueError', s.shape.dims[0] == 0, 'choice from an empty sequence')
-        return wrap_scalar(fresh('choice', z3.IntSort() if s.kind in 'ib' else z3.RealSort()), s.kind)
+        out = wrap_scalar(fresh('choice', z3.IntSort() if s.kind in 'ib' else z3.RealSort()), s.kind)
+        if s.vf is not None:
+          out.vf = s.vf
+        return out
       return VInt(fresh('choice', z3.IntSort()))
     n = size.t
     if isinstance(a, VInt):
       avail = a.t
     elif isinstance(a, VArr):
       avail = st_of(cx, a).shape.dims[0]
+    elif isinstance(a, VListRef):
+      avail = cx.p.lists[a.lid]['n']
     else:
       avail = None
     if replace is not None and kwbool(replace, True) is False and avail is not None:
       cx.may_raise('ValueError', n > avail, 'cannot take a larger sample than population when replace=False')
-    return cx.new(None, [n], 'i')
+    vf = a.t if isinstance(a, VInt) else (st_of(cx, a).vf if isinstance(a, VArr) else None)
+    if isinstance(a, VListRef) and cx.p.lists[a.lid].get('elem') is not None:
+      vf = getattr(cx.p.lists[a.lid]['elem'], 'vf', None)
+    if isinstance(a, VOpaque) and getattr(a, 'vf', None) is not None:
+      vf = a.vf
+    return cx.new(None, [n], 'i', vf=vf)
 
   @emethod('rng', 'randn')
   def _randn(cx, r, *dims):
@@ -695,7 +737,7 @@ def install(lib, np_):
       nq = st_of(cx, X).shape.dims[0]
       cx.may_raise('ValueError', k > nfit, 'kneighbors: n_neighbors > n_samples_fit')
     cx.may_raise('ValueError', k < 1, 'kneighbors: n_neighbors < 1')
-    return cx.new(None, [nq, k], 'i')
+    return cx.new(None, [nq, k], 'i', vf=nfit)
 
   @emethod('kmeans', 'fit')
   def _km_fit(cx, o, X, y=None):
